@@ -71,15 +71,22 @@ def run_case(i, tier, seed):
         level = rng.choice(["1.5", "3.1"]) if typ == "IU2" else "1.1"
         kind = harness.FS_KINDS[i % 4]
         k = rng.choice([1, 1, 2, 3, 4])
-        products = [([_geometry(rng, tier) for _ in range(k)], rng.choice(PATTERNS))]
+        geoms0 = [_geometry(rng, tier) for _ in range(k)]
+        pat0 = rng.choice(PATTERNS)
+        # the second product has the same file names and geometry but other samples and lives elsewhere:
+        # anything remembered per file *name* across opens shows up as the first product's pixels
+        products = [(geoms0, pat0), (geoms0, "random" if pat0 != "random" else "index")]
         rpcs_for = lambda n: harness.rpc_candidates(n, rng)
     sample = None
-    for geoms, pattern in products:
+    fixed_rpcs = None
+    for pidx, (geoms, pattern) in enumerate(products):
+        if i < nrand:
+            kind = harness.FS_KINDS[(i + pidx) % 4]
         pols = ["HH", "HV", "VH", "VV"][: len(geoms)]
         names = gen.product_names(level, pols=pols)
         files = {}
         for k, (n, (lines, pixels)) in enumerate(zip(names["imgs"], geoms)):
-            rng_np = np.random.default_rng([seed, i, k])
+            rng_np = np.random.default_rng([seed, i, k, pidx])
             im = gen.minimal_image(rng_np, typ, lines, pixels, pattern)
             files[n] = synth.image_bytes(im)
         files[names["vol"]] = synth.volume_bytes(gen.minimal_volume(len(geoms) + 2))
@@ -93,8 +100,11 @@ def run_case(i, tier, seed):
         try:
             expected = {n: refdec.image(files[n]) for n in names["imgs"]}
             rpcs = sorted(set(r for n, (l, p) in zip(names["imgs"], geoms) for r in rpcs_for(l)))
-            if i < nrand and len(rpcs) > 5:
-                rpcs = sorted(rng.sample(rpcs, 5))
+            if i < nrand and len(rpcs) > 4:
+                rpcs = sorted(rng.sample(rpcs, 4))
+            if i < nrand:
+                fixed_rpcs = fixed_rpcs or rpcs
+                rpcs = fixed_rpcs
             for rpc in rpcs:
                 try:
                     tree = harness.open_tree(url, use_cache=False, records_per_chunk=rpc)
